@@ -56,10 +56,54 @@ def service_layouts( ctx ):
     return ctx.cached( 'service_layouts', build )
 
 
+def truthiness_guards( src, fn, art='data' ):
+    """`if <field>:` / `if d.get( '<field>' ):` guarding the emission of that same integer field: -> [ ( If node, field ) ]"""
+    out = []
+    for i in ast.walk( fn ):
+        if not isinstance( i, ast.If ):
+            continue
+        t = i.test
+        field = None
+        if isinstance( t, ast.Call ) and isinstance( t.func, ast.Attribute ) and t.func.attr == 'get' and len( t.args ) == 1 and isinstance( try_fold( t.args[0] ), str ):
+            field = try_fold( t.args[0] )
+        elif isinstance( t, ast.Attribute ):
+            field = t.attr
+        if field is None:
+            continue
+        for s_ in i.body:
+            for c in ast.walk( s_ ):
+                if isinstance( c, ast.Call ) and call_name( c ).endswith( '.produce' ) and c.args and ( dotted( c.args[0] ) or '' ).split( '.' )[-1] == field \
+                   and call_name( c ).split( '.' )[-2] in ( 'USINT', 'UINT', 'UDINT', 'ULINT', 'SINT', 'INT', 'DINT', 'LINT', 'WORD', 'DWORD' ):
+                    out.append(( i, field ))
+    return out
+
+
 @rule( 'L-AGREE', props=( 'C01', 'C14' ), floor=24 )
 def l_agree( ctx ):
     """for every registered service: each layout the parser accepts is one the producer emits, and each layout the producer emits (under recognised guards) is one the parser accepts - same order, width, signedness, byte order, data path, pads, guards"""
     res = Result( 'L-AGREE' )
+    # optional integer fields are guarded by presence, not by truthiness (0 is a legal value and must be re-produced)
+    seen_fn = set()
+    for e in service_layouts( ctx ):
+        if id( e['pfn'] ) in seen_fn:
+            continue
+        seen_fn.add( id( e['pfn'] ))
+        for i, field in truthiness_guards( e['src'], e['pfn'] ):
+            res.bad( e['src'], i, 'if %s: ... produce( %s )' % ( norm_text( i.test ), field ),
+                     'the optional field %r is emitted only when it is truthy: a parsed message whose %s is 0 is re-produced without it (the parser decides by presence of input)' % ( field, field ), func=e['cls'] + '.produce' )
+    # list accumulators are created per parse: a move_if initializer must not be a shared mutable literal
+    g = grammar_of( ctx )
+    for label, root in sorted( g.all_roots().items() ):
+        for n in g.nodes( root ):
+            for k, t in n.edges:
+                if isinstance( t, Decide ) and isinstance( t.kw.get( 'initializer' ), ( list, set )):
+                    s_ = ctx.src( FILES[t.site[0]] )
+                    key_ = ( t.site, )
+                    if key_ in seen_fn:
+                        continue
+                    seen_fn.add( key_ )
+                    res.bad( s_, L( t.site[1] ), 'move_if( %r, initializer=%r )' % ( t.name, t.kw.get( 'initializer' )),
+                             'the initializer is one list object shared by every parse: the second and later messages recover the items of all earlier ones', func=label )
     for e in service_layouts( ctx ):
         label = '%s 0x%02X %s' % ( e['cls'], e['number'], e['name'] )
         psrc = ctx.src( FILES[e['site'][0]] )
